@@ -770,6 +770,23 @@ func c06CLI(run *ev.Run, bin, tier string, cliRuns *int64) {
 				run.Violate("C06/cli/"+f+"/cause-not-printed/"+tgt, d)
 			}
 		}
+		// (2a') the missing file has a percent sign in its name (legal in a file name,
+		// special only to whoever formats the message): the printed cause names it as it is
+		{
+			wd := filepath.Join(dir, "percent-"+f)
+			_ = os.MkdirAll(wd, 0o755)
+			for k, missing := range []string{"post%install.sh", "100%done %s %d.sh"} {
+				s := mk(false)
+				s.Scripts.PostInstall = filepath.Join(wd, missing)
+				cfgp := filepath.Join(wd, fmt.Sprintf("nfpm-%d.yaml", k))
+				_ = os.WriteFile(cfgp, []byte(s.YAML()), 0o644)
+				out, code := runNfpm(wd, "package", "-f", cfgp, "-p", f, "-t", filepath.Join(wd, "x"+exts[f]))
+				run.Case(fmt.Sprintf("cli|missing-script-with-percent-sign|%s|%d", f, k), true)
+				if code == 0 || !strings.Contains(out, missing) {
+					run.Violate("C06/cli/"+f+"/cause-not-printed/file-name-with-percent-sign", map[string]any{"exit": code, "missing_file": missing, "output": ev.Short(out, 400)})
+				}
+			}
+		}
 		// (2b) the target file already existed before the failing run: the
 		// property still wants nothing at the target path afterwards (the old
 		// package was truncated by the attempt and must not be mistaken for a result)
